@@ -46,6 +46,10 @@ def gen_case(r, front, framing, uniq, data_only=False, max_per_read=3, allow_for
     elif r.random() < 0.15:
         flags['defaults_opposite'] = True
         layout['defaults_opposite'] = True
+    elif r.random() < 0.2:
+        layout['zero_style'] = r.choice(['int', 'late'])       # zero_mode=1 / 0, or the attribute set after construction
+    if not single and r.random() < 0.12:
+        layout['table'] = 'defaultdict'
     if r.random() < 0.15:
         layout['share_init_lists'] = True
     defaults_unit = r.choice(hosted) if (r.random() < 0.15 and framing != 'tls') else None
@@ -140,6 +144,8 @@ def build_reads(case):
                 f = f[:2] + bytes([case['pid'] >> 8, case['pid'] & 0xFF]) + f[4:]       # MBAP protocol identifier chosen by the client
             chunk += f
         out.append(chunk)
+    if case.get('tail_malformed') and out:
+        out[-1] += ADU.build(case['framing'], int(next(iter(case['layout']['units']))), bytes([16, 0, 2, 0, 3, 6, 0, 1]), tid=0x7777)
     for idx, hx in sorted(case.get('inserts', []), reverse=True):
         out.insert(idx, bytes.fromhex(hx))          # raw bytes put between two reads (C17: fragments the framer rejects)
     return out
